@@ -51,9 +51,10 @@
 (* digester state is the sequence hashed so far.                           *)
 (*                                                                         *)
 (* The host throttle (internal/pqueue through Resp.next / Resp.Close) is    *)
-(* modelled as the number of slots the response holds (`held`): one more   *)
-(* for every successful request, the previous one is not given back; with  *)
-(* Conc = 3 (regclient's default) NeverSelfBlocked fails (findings/C01-2).  *)
+(* modelled as the number of slots the response holds (`held`): one for a  *)
+(* successful request, given back when the response restarts its request.  *)
+(* With KeepSlots = TRUE (the code before the repair of findings/C01-2) the *)
+(* slot is not given back and NeverSelfBlocked fails with Conc = 3.         *)
 (*                                                                         *)
 (* Deliberate deviations: one host, no mirrors, no auth round trips, no    *)
 (* Retry-After header; backoffReset's "more than 5 successes" branch is    *)
@@ -81,7 +82,8 @@ CONSTANTS
   InlineData,  \* BOOLEAN: also descriptors with an inline Data field
   Conc,        \* config.Host.ReqConcurrent of the registry (regclient's default is 3)
   Probes,      \* BOOLEAN: the caller may also ask for its position / try an arbitrary seek
-  Exts         \* subset of BOOLEAN: descriptors with an external URL (descriptor.URLs)
+  Exts,        \* subset of BOOLEAN: descriptors with an external URL (descriptor.URLs)
+  KeepSlots    \* BOOLEAN: TRUE = throttle handling before the repair (findings/C01-2.md)
 
 VARIABLES
   scn,       \* the scenario: descriptor, stored content, scheme, access path (constant)
@@ -205,6 +207,12 @@ BodyRead(k, with, chunk) ==
   IN [n |-> n, data |-> Take(conn.data, n), rest |-> rest,
       err |-> IF fin THEN (IF conn.end = "eof" THEN "eof" ELSE "ueof") ELSE "none"]
 
+\* Resp.next, first lines: a response that restarts its request (resume, Seek) gives back the
+\* throttle slot it kept for the previous request.  KeepSlots = TRUE is the code before the repair
+\* (commit "release the host throttle before a response restarts its request"): the slot was
+\* forgotten, not released, and the third restart waited for its own stream (findings/C01-2.md).
+ReleaseAtRestart == IF KeepSlots THEN held ELSE 0
+
 \* reghttp.Resp.backoffReset (without the success counter)
 BackoffReset == IF backoff > RetryLimit THEN backoff - 1 ELSE backoff
 
@@ -244,21 +252,22 @@ RespRead(k) ==
            cur2 == readCur + b.n
        IN /\ conn' = [conn EXCEPT !.data = b.rest]
           /\ readCur' = cur2
-          /\ UNCHANGED <<readMax, retry, held, drops, fails>>
+          /\ UNCHANGED <<readMax, retry, drops, fails>>
           /\ IF b.err = "none"
              THEN /\ Deliver(b.n, b.data, "none")
-                  /\ UNCHANGED <<rdone, backoff, pc, why, pend>>
+                  /\ UNCHANGED <<rdone, backoff, pc, why, pend, held>>
              ELSE IF cur2 >= readMax
              THEN /\ rdone' = TRUE /\ backoff' = BackoffReset
                   /\ Deliver(b.n, b.data, b.err)
-                  /\ UNCHANGED <<pc, why, pend>>
+                  /\ UNCHANGED <<pc, why, pend, held>>
              ELSE \* short read: backoffSet, then next() with a Range header
                   /\ backoff' = backoff + 1
                   /\ IF backoff + 1 >= RetryLimit
                      THEN /\ rdone' = TRUE
                           /\ Deliver(b.n, b.data, b.err)
-                          /\ UNCHANGED <<pc, why, pend>>
+                          /\ UNCHANGED <<pc, why, pend, held>>
                      ELSE /\ pc' = "req" /\ why' = "resume"
+                          /\ held' = ReleaseAtRestart
                           /\ pend' = [n |-> b.n, data |-> b.data, err |-> b.err]
                           /\ UNCHANGED <<rdone, rvars, got, cst, ret>>
 
@@ -281,15 +290,16 @@ ResetReader ==
 Seek0 ==
   /\ pc = "ready" /\ seeks < MaxSeeks /\ scn.via = "reader"
   /\ seeks' = seeks + 1
-  /\ UNCHANGED <<scn, src, again, pend, readMax, rdone, backoff, held, drops, fails, extused>>
+  /\ UNCHANGED <<scn, src, again, pend, readMax, rdone, backoff, drops, fails, extused>>
   /\ IF src = "http" /\ readCur # 0
      THEN /\ readCur' = 0 /\ retry' = retry - 1                 \* http.go:Resp.Seek
           /\ pc' = "req" /\ why' = "seek"
+          /\ held' = ReleaseAtRestart
           /\ UNCHANGED <<conn, rvars, got, cst, ret>>
      ELSE /\ conn' = IF src = "http" THEN conn
                      ELSE [data |-> IF src = "mem" THEN Inline ELSE scn.served, end |-> "eof"]
           /\ ResetReader
-          /\ UNCHANGED <<readCur, retry, pc, why>>
+          /\ UNCHANGED <<readCur, retry, pc, why, held>>
 
 \* BReader.Seek(0, io.SeekCurrent): reports readBytes, changes nothing (reader.go:138)
 Tell ==
@@ -397,9 +407,8 @@ ServeOK(r) ==
      ELSE /\ readMax' = IF readCur = 0 /\ clv >= 0 /\ readMax <= 0 THEN clv ELSE readMax
           /\ IF RangeReq /\ r.cr = "absent"
              THEN Fail /\ UNCHANGED <<conn, held>>                           \* http.go:500
-             ELSE \* http.go:508: resp.throttleDone = throttleDone -- the slot of this request is
-                  \* kept until Close and the slot kept for the previous request of the same
-                  \* response is forgotten, not released (findings/C01-2.md)
+             ELSE \* resp.throttleDone = throttleDone: the slot of this request is kept until Close
+                  \* or until the response restarts its request
                   /\ held' = held + 1
                   /\ Succeed(body, IF r.cut = NoCut THEN "eof" ELSE "drop", clv)
 
@@ -425,7 +434,7 @@ Bounded == lim # NoLim => Len(got) <= bsize + 1
 \* every return of io.EOF by BReader.Read / RawBody / ReadFile-walk is verified, also after an error
 EofVerified == (ret.op = "read" /\ ret.err = "eof" /\ Check # "none") => got = scn.intended
 \* a request of the stream never waits for throttle slots that only the stream itself holds
-\* (false with Conc = 3: C01_mc_throttle.cfg, findings/C01-2.md)
+\* (false with KeepSlots = TRUE and Conc = 3: C01_mc_throttle_old.cfg, findings/C01-2.md)
 NeverSelfBlocked == ~(pc = "req" /\ retry <= RetryLimit /\ held >= Conc)
 \* a clean end never leaves part of the current body / file / inline data unread
 NoLeftover == (cst = "clean" /\ pc = "ready") => conn.data = <<>>
